@@ -63,9 +63,36 @@ CHECKS.update({
    ref='DESIGN.md 5 (C20)'),
 })
 
+CHECKS.update({
+ 'C01': dict(
+   technique='harness-enforced step contracts (CBMC) on handleReceive/handleSend/setState/messageCompleted: one-step simulation against a reference telegram recogniser, inductive over calls',
+   level='proof',
+   text='From every handler state satisfying the invariant and the simulation relation with an independent telegram recogniser (phases, unescaping, CRC over escaped bytes, NAK-repeat, address checks; buffers compared byte-wise), one call of the real handleReceive/handleSend re-establishes both, and notifyProtocolMessage is called exactly when the recogniser accepts a telegram, with equal bytes. By induction over the calls made by run() this covers byte streams of every length, every corruption position and every chunking; any received SYN leads to the ready state.',
+   note=TB + 'Back end B2 (assume/assert harness, no DFCC frame); Device/Queue/BusRequest/Listener/clock are environment stubs; device verdict timing contract (verdict only with the first symbol after SYN, with SYN, or with an error) and the exclusion of read-only+answer configuration are stated assumptions; devices themselves: C14. NN is unrestricted (0..255).',
+   ref='DESIGN.md 5 (C01)'),
+ 'C02': dict(
+   technique='harness-enforced step contracts (CBMC): wire-format obligations as preconditions of the Device::send stub, completion verdict as precondition of BusRequest::notify',
+   level='proof',
+   text='In every state of an own transfer the symbol handed to Device::send is proved to be the next escaped master byte / the escaped CRC of the echoed bytes / ACK iff the response CRC is right else NAK / the final SYN; the request is completed with OK iff the recogniser accepted the exchange in that step, carrying the bytes seen on the bus; inductive over steps as for C01.',
+   note=TB + 'B2 back end; sendAndWait retry loop and addRequest(wait) blocking are not under contract in this revision; requests are assumed well-formed (complete, master source, not self-addressed).',
+   ref='DESIGN.md 5 (C02)'),
+ 'C03': dict(
+   technique='harness-enforced step contracts (CBMC): entitlement as precondition of the Device::send / Device::startArbitration stubs, discharged at every call site under the handler invariant',
+   level='proof',
+   text='Every call of Device::send is proved to happen only (b) as echo-verified continuation of a won telegram, (c) as acknowledge/response while answering, or (d) as SYN after a receive timeout of at least the SYN generation interval, never in read-only mode and never before the previous symbol was echoed; Device::startArbitration only for a pending request with its own source address while the lock counter is 0 and no telegram runs.',
+   note=TB + 'B2 back end; (a) the arbitration byte itself is written by the device (C14 unit when built); "silent for the interval" is the trusted meaning of a receive timeout; lock counter arithmetic after lost arbitration is covered by the simulation only as far as it gates startArbitration.',
+   ref='DESIGN.md 5 (C03)'),
+ 'C04': dict(
+   technique='harness-enforced step contracts (CBMC) with a ghost life cycle per request (queued/current/finished/deleted) carried by the Queue/BusRequest stubs',
+   level='proof',
+   text='Sequential ownership discipline: in every step a request is completed only while it is the current one and at most once per submission, re-queued only before completion or when its completion asks for a restart, deleted or handed to its waiter exactly once after completion, never read after that, and no request is left current without being referenced (no loss).',
+   note=TB + 'NOT decided: thread schedules (Queue critical sections are trusted atomic), liveness ("eventually"), sendAndWait/addRequest, Poll/ScanRequest::notify restart decisions; drain loop on signal loss checked for queues up to 2 pending requests (bounded).',
+   ref='DESIGN.md 5 (C04)'),
+})
+
 NOT_APPLICABLE = {
 }
-NOT_YET = ['C01', 'C02', 'C03', 'C04', 'C08', 'C09', 'C10', 'C13', 'C14', 'C16', 'C17', 'C18', 'C19', 'C20']
+NOT_YET = [ 'C08', 'C09', 'C10', 'C13', 'C14', 'C16', 'C17', 'C18', 'C19', 'C20']
 
 
 def main():
